@@ -8,6 +8,7 @@ package checks
 // 0x3F and boundary ids. Oracle: a decision table written from the statement.
 
 import (
+	"time"
 	"strings"
 	"encoding/json"
 	"fmt"
@@ -254,6 +255,10 @@ type c12RCase struct {
 	// squashed root cannot install them through SETATTR.
 	Squash string `json:"squash,omitempty"`
 	Conn   bool   `json:"conn,omitempty"` // requests travel over the record-marking connection loop
+	// Relook: the attribute cache keeps entries for an hour, and between installing owner and mode and asking ACCESS the
+	// client reads the attributes (GETATTR, READDIRPLUS of the parent) and looks the name up again; ACCESS goes through
+	// the handle that second LOOKUP returned. The object's owner is what it was made to be, however often it is looked at.
+	Relook bool `json:"relook,omitempty"`
 }
 
 func genC12R(t *rapid.T) c12RCase {
@@ -265,6 +270,7 @@ func genC12R(t *rapid.T) c12RCase {
 	c.Aux = rapid.SliceOfN(rapid.SampledFrom(ids), 0, 16).Draw(t, "aux")
 	c.Squash = pick(t, "squash", "", "", "none", "root", "all", "ALL", "Root")
 	c.Conn = rapid.IntRange(0, 3).Draw(t, "conn") == 0
+	c.Relook = rapid.IntRange(0, 2).Draw(t, "relook") == 0
 	return c
 }
 
@@ -277,7 +283,11 @@ func runC12R(tb stat.TB, c c12RCase) {
 	if sq == "" {
 		sq = "none"
 	}
-	s := newSession(tb, v, absnfs.ExportOptions{Squash: sq, AttrCacheTimeout: 1, AttrCacheSize: 2})
+	eo := absnfs.ExportOptions{Squash: sq, AttrCacheTimeout: 1, AttrCacheSize: 2}
+	if c.Relook {
+		eo.AttrCacheTimeout, eo.AttrCacheSize = time.Hour, 10000
+	}
+	s := newSession(tb, v, eo)
 	defer s.close()
 	s.e.ViaConn = c.Conn
 	fu, fg := c.FU, c.FG
@@ -324,6 +334,18 @@ func runC12R(tb stat.TB, c c12RCase) {
 				tb.Fatalf("harness: %v", err)
 			}
 		}
+		if c.Relook {
+			lname := name
+			if squashed {
+				lname = "made"
+			}
+			s.nfs(nfsx.ProcGetattr, nfsx.ArgsFh(r.Fh))
+			s.nfs(nfsx.ProcReaddirplus, nfsx.ArgsReaddirplus(root, 0, [8]byte{}, 4096, 8192))
+			s.nfs(nfsx.ProcGetattr, nfsx.ArgsFh(r.Fh))
+			if r2 := s.nfs(nfsx.ProcLookup, nfsx.ArgsDirop(root, lname)); r2.Status == nfsx.OK && len(r2.Fh) > 0 {
+				r = r2
+			}
+		}
 		cl := drv.Client{IP: "127.0.0.1", Port: 700, Cred: nfsx.AuthSys(1, "h", c.Uid, c.Gid, c.Aux)}
 		ar := s.nfsAs(cl, nfsx.ProcAccess, nfsx.ArgsAccess(r.Fh, c.Mask))
 		if ar.Status != nfsx.OK {
@@ -348,6 +370,9 @@ func runC12R(tb stat.TB, c c12RCase) {
 	ls := []string{"squash_" + strings.ToLower(sq)}
 	if c.Conn {
 		ls = append(ls, "over_connection_loop")
+	}
+	if c.Relook {
+		ls = append(ls, "attributes_cached_and_name_looked_up_again")
 	}
 	stat.Case(c, true, ls...)
 }
